@@ -50,7 +50,7 @@ class RunPT(PropRunStream):
     oracles = ("C01",)
     quick_cases = 120
     quick_seconds = 30
-    thorough_cases = 400
+    thorough_cases = 4000
 
 
 def streams(ctx):
